@@ -312,6 +312,12 @@ def run_hybrid(c, rec):
             s.spy_name = b
             strat[b] = s
         if c.get("nsteps_omitted"):
+            # another sampler object, built with the default step counts before this one, is given other counts through its
+            # public attribute: this sampler, also built with the defaults, must still make one transition per block
+            refused, decoy = refuses(lambda: E.HybridGibbs(J, {b: E.MH(scale=0.2, initial_point=init[b].copy()) for b in dorder}))
+            if not refused and isinstance(getattr(decoy, "num_sampling_steps", None), dict):
+                for b in list(decoy.num_sampling_steps):
+                    decoy.num_sampling_steps[b] = 4
             return E.HybridGibbs(J, strat)
         return E.HybridGibbs(J, strat, num_sampling_steps={b: c["nsteps"][b] for b in reversed(dorder) if given.get(b, True)})
     assign = {b: c["prefer"][b] for b in order}
